@@ -182,9 +182,13 @@ def explore_config(chk, caps, nw, depth, with_rselect=True, with_select2=True, m
 
     def run_layer(hists):
         items = [item_for(caps, nw, h) for h in hists]
-        res = run_batch("fast", DRIVER, items, env={"VERIF_VTIME": "1"}, chunk=400, timeout=120)
+        res = run_batch("fast", DRIVER, items, env={"VERIF_VTIME": "1"}, chunk=400, timeout=60, max_deaths=8)
         out = []
         for h, (st, text) in zip(hists, res):
+            if st == "SKIPPED":
+                chk.cap("%s: histories not run after 8 dead workers" % label)
+                out.append(None)
+                continue
             if st != "OK":
                 # a crash / hang / driver error on a history is itself reportable
                 chk.violation("driver-%s:%s" % (st.lower(), opshape(h[-1][1])),
